@@ -9,12 +9,33 @@ import (
 const annPausedByParent = "package-operator.run/paused-by-parent"
 
 // MonC09: paused means hands-off.
-type MonC09 struct{ BaseMon }
+type MonC09 struct {
+	BaseMon
+	// pausedBy remembers who moved a revision into Paused: "parent" (a pass of its paused
+	// deployment), "archive" (a pass of its unpaused deployment: pause before archival), "other".
+	pausedBy map[store.Key]string
+}
 
 func (m *MonC09) ID() string { return "C09" }
 
 func (m *MonC09) OnReq(w *World, r *Req) {
 	p := r.Pass
+	if !r.DryRun && r.IsWrite() && r.Succeeded() && isObjectSetKind(r.GVK.Kind) && r.GVK.Group == PKOGroup && r.After != nil &&
+		store.Str(r.After, "spec", "lifecycleState") == "Paused" && (r.Before == nil || store.Str(r.Before, "spec", "lifecycleState") != "Paused") {
+		if m.pausedBy == nil {
+			m.pausedBy = map[store.Key]string{}
+		}
+		who := "other"
+		if p != nil && isODKind(p.Ctrl) {
+			who = "archive"
+			if o := ownerOfPass(p); o != nil {
+				if b, _ := store.Get(o, "spec", "paused").(bool); b {
+					who = "parent"
+				}
+			}
+		}
+		m.pausedBy[r.Key()] = who
+	}
 	if p == nil || r.DryRun || !r.IsWrite() {
 		return
 	}
@@ -40,6 +61,11 @@ func (m *MonC09) OnReq(w *World, r *Req) {
 			store.Str(r.After, "spec", "lifecycleState") != "Archived" {
 			m.touch()
 			w.Stats.Probe("c09-revision-released")
+			if who, known := m.pausedBy[r.Key()]; known && who != "parent" {
+				w.Report(Violation{Property: "C09", Rule: "unpause-exact", Sig: "paused-by-" + who + "/" + shortSite(r.Site), Seq: r.Seq,
+					Msg: fmt.Sprintf("pass %d of %s %s set revision %s from Paused to %q although it was not the paused deployment that had paused it (paused by: %s)", p.ID, p.Ctrl, p.Key, r.Name, store.Str(r.After, "spec", "lifecycleState"), who)})
+				return
+			}
 			seen, _ := p.LastSeen("mgmt", r.Key(), r.Seq)
 			if store.Annotations(r.Before)[annPausedByParent] != "true" && (seen == nil || store.Annotations(seen)[annPausedByParent] != "true") {
 				w.Report(Violation{Property: "C09", Rule: "unpause-exact", Sig: "not-paused-by-parent/" + shortSite(r.Site), Seq: r.Seq,
